@@ -121,6 +121,8 @@ def alto_cfgs(ctx):
             # two lines in ONE block, Arabic and Latin script mixed, Latin delimiters: per-line state of the export
             dict(base, name="page-mixed-script", Mode="page", Classes=["A", "a", "d"], MaxLen=2, Situations=["peaky", "short"],
                  MaxBlocks=1, MaxLines=2),
+            # runs of several Latin words inside an Arabic-script line (word-wise vs line-wise order conversion)
+            dict(base, name="arabic-latin-run", Mode="line", Classes=["A", "a", "b", "s"], MaxLen=5, Situations=["peaky", "short"]),
             dict(base, name="blocks", Mode="blocks", Classes=["a"], MaxLen=1, Situations=["nochars"], MaxBlocks=2),
         ]
     else:
